@@ -122,11 +122,22 @@ class LPStubs:
         return (ra, rb)
 
 
-def _lists(h, s, na, nb, names=V2):
-    # precondition from the properties' quantifiers: every constraint mentions at least one variable
-    A = s.termlist([s.term("a%d" % i, names, allow_empty=False) for i in range(na)])
-    B = s.termlist([s.term("b%d" % i, names, allow_empty=False) for i in range(nb)])
-    return A, B
+def _lists(h, s, na, nb, names=V2, vf=False):
+    # the properties' quantifiers speak of constraints that mention at least one variable; vf=True adds to each list one
+    # constraint WITHOUT variables (0 <= c, what cancelling coefficients leave), first or last
+    ta = [s.term("a%d" % i, names, allow_empty=False) for i in range(na)]
+    tb = [s.term("b%d" % i, names, allow_empty=False) for i in range(nb)]
+    if vf:
+        fa, fb = s.term("fa", names, support=[]), s.term("fb", names, support=[])
+        ta = [fa] + ta if h.ctx.choose(2, "vf_first_a") == 0 else ta + [fa]
+        tb = [fb] + tb if h.ctx.choose(2, "vf_first_b") == 0 else tb + [fb]
+    return s.termlist(ta), s.termlist(tb)
+
+
+def _vf_false(s, tl):
+    """is a constraint without variables of this list violated (0 <= c with c < 0)?"""
+    fs = [s.const(t) < 0 for t in tl.attrs["terms"].items if not s.coefs(t)]
+    return z3.Or(*fs) if fs else z3.BoolVal(False)
 
 
 def _vec(s, order):
@@ -495,3 +506,86 @@ for _n in (0, 1, 2):
         shards=max(1, 2 * _n),
         weight=max(1, 2 * _n),
     )(_optimize(_n))
+
+
+# ------------------------------------------------------------------------------------------------
+# constraints without variables (0 <= c: cancelling coefficients): set aside before any matrix is built
+# ------------------------------------------------------------------------------------------------
+def _refines_vf(na, nb):
+    def c(h):
+        s = S(h)
+        st = LPStubs(h, s)
+        A, B = _lists(h, s, na, nb, vf=True)
+        out = h.call(h.method(A, "refines"), [B])
+        h.check("C14.refines.no_exception", out.kind == "return", "raised %s at %s" % (out.exc_name, out.where))
+        if out.kind != "return":
+            return
+        r = out.value
+        cont = [x for x in st.log if x["op"] == "containment"]
+        empt = [x for x in st.log if x["op"] == "is_empty"]
+        p = {n: s.pval(n) for n in V2}
+        fa, fb = _vf_false(s, A), _vf_false(s, B)
+        # exact semantics at the skolem point, whatever route was taken
+        if cont and st.orders:
+            x = _vec(s, st.orders[-1])
+            h.cover("containment_test")
+            # (whether the constant constraints are set aside before or kept as zero rows is the code's business: the
+            # matrices handed to the containment test have to MEAN the two lists)
+            h.ensure("C03.list_refines_vf.left_matrix_means_left_list", cont[0]["L"](x) == s.sat(A))
+            h.ensure("C03.list_refines_vf.right_matrix_means_right_list", cont[0]["R"](x) == s.sat(B))
+            h.ensure("C03.list_refines_vf.result_is_test", _bool(r) == cont[0]["result"])
+        else:
+            h.cover("decided_without_containment_test")
+            # an unsatisfiable left side refines everything; against an unsatisfiable right side only an empty left side does;
+            # a right side that only has constant constraints which hold is no constraint at all
+            h.ensure("C03.list_refines_vf.true_without_test_only_if_trivially_so", z3.Implies(_bool(r), z3.Or(fa, z3.And(fb, z3.Or(*[_bool(e["result"]) for e in empt]) if empt else z3.BoolVal(False)), z3.And(z3.Not(fb), z3.BoolVal(nb == 0)))))
+            h.ensure("C03.list_refines_vf.false_without_test_only_if_right_side_constrains", z3.Implies(z3.Not(_bool(r)), z3.And(z3.Not(fa), z3.Or(fb, z3.BoolVal(nb > 0)))))
+        h.frame_ok(out, "C13.frame")
+
+    return c
+
+
+for _na, _nb in [(0, 0), (1, 0), (0, 1), (1, 1)]:
+    contract(
+        "PolyhedralTermList.refines[%d,%d,plus a constraint without variables on each side]" % (_na, _nb),
+        ["C03", "C13", "C14"],
+        [PTL + "refines", PTL + "_split_variable_free_terms", PTL + "termlist_to_polytope", PTL + "lacks_constraints"],
+        "S",
+        bound=B2 + " (%d left terms, %d right terms, and one constraint 0 <= c on each side, first or last)" % (_na, _nb),
+        assumes=["contract of verify_polytope_containment / is_polytope_empty (h_lp)", "A5"],
+        covers=["decided_without_containment_test"] + (["containment_test"] if _na and _nb else []),
+    )(_refines_vf(_na, _nb))
+
+
+def _is_empty_vf(n):
+    def c(h):
+        s = S(h)
+        st = LPStubs(h, s)
+        A, _ = _lists(h, s, n, 0, vf=True)
+        out = h.call(h.method(A, "is_empty"), [])
+        h.check("C14.is_empty.no_exception", out.kind == "return", "raised %s at %s" % (out.exc_name, out.where))
+        if out.kind != "return":
+            return
+        tests = [x for x in st.log if x["op"] == "is_empty"]
+        fa = _vf_false(s, A)
+        if tests and st.orders:
+            x = _vec(s, st.orders[-1])
+            h.ensure("C11.is_empty_vf.matrix_means_list", tests[0]["set"](x) == s.sat(A))
+            h.ensure("C11.is_empty_vf.result_is_test", _bool(out.value) == _bool(tests[0]["result"]))
+        else:
+            # no LP: the list is empty iff its constant constraint fails (0 <= c with c < 0); with no other term it is the whole space
+            h.ensure("C11.is_empty_vf.without_test_empty_iff_constant_constraint_fails", _bool(out.value) == fa)
+        h.frame_ok(out, "C13.frame")
+
+    return c
+
+
+for _n in (0, 1, 2):
+    contract(
+        "PolyhedralTermList.is_empty[%d,plus a constraint without variables]" % _n,
+        ["C11", "C13", "C14"],
+        [PTL + "is_empty", PTL + "_split_variable_free_terms", PTL + "termlist_to_polytope"],
+        "S",
+        bound="%d terms over {x,y}, every support, and one constraint 0 <= c, first or last" % _n,
+        assumes=["contract of is_polytope_empty (h_lp)", "A5"],
+    )(_is_empty_vf(_n))
